@@ -226,6 +226,24 @@ fn grammar_packets(rng: &mut Rng) -> Vec<Vec<u8>> {
         }
     }
     v.push(wire::enc_oack(&[]));
+    // long valid-UTF-8 strings with a multi-byte character at every alignment around typical size limits,
+    // in every string field of every packet kind
+    for ch in ["\u{e9}", "\u{6587}", "\u{1F600}"] {
+        for pre in (0..24).chain(120..132).chain(248..262).chain(500..516) {
+            let text = format!("{}{}{}", "a".repeat(pre), ch, "b".repeat(3));
+            let long = format!("{}{}", "a".repeat(pre % 4), ch.repeat(130));
+            for t in [&text, &long] {
+                v.push(wire::enc_error(1, t.as_bytes()));
+                v.push(wire::enc_request(wire::OP_RRQ, t.as_bytes(), b"octet", &[]));
+                v.push(wire::enc_request(wire::OP_WRQ, b"f", t.as_bytes(), &[]));
+                let mut p = wire::enc_request(wire::OP_RRQ, b"f", b"octet", &[]);
+                p.extend_from_slice(t.as_bytes());
+                p.push(0);
+                p.extend_from_slice(b"1\0");
+                v.push(p);
+            }
+        }
+    }
     for blk in [0u16, 1, 255, 256, 65535] {
         v.push(wire::enc_ack(blk));
         for len in [0usize, 1, 8, 512] {
@@ -313,7 +331,8 @@ fn c10(thorough: bool, miri: bool, seed: u64, threads: usize) -> Json {
                 continue;
             }
             judge_datagram(p, rep, "grammar");
-            for cut in 0..p.len() {
+            let step = if p.len() > 80 { 7 } else { 1 };
+            for cut in (0..p.len()).step_by(step) {
                 judge_datagram(&p[..cut], rep, "grammar-truncated");
             }
             for (k, &byte) in p.iter().enumerate() {
@@ -400,6 +419,10 @@ fn gen_packet(r: &mut Rng) -> (Packet, RPacket) {
     let mut pick_s = |r: &mut Rng| -> String {
         if r.chance(60) {
             long.clone()
+        } else if r.chance(60) {
+            // long string with multi-byte characters at a random alignment
+            let ch = *r.pick(&["\u{e9}", "\u{6587}", "\u{1F600}"]);
+            format!("{}{}", "a".repeat(r.below(8) as usize), ch.repeat(r.range(40, 260) as usize))
         } else if r.chance(150) {
             // random printable / multi-byte string without NUL
             let n = r.range(0, 20);
